@@ -63,6 +63,7 @@ package dns
 //@   exit sighdr2: ret1 == nil ==> rr.OrigTtl == 0 && rr.TypeCovered == 0 && rr.Labels == 0
 //@   callsite "Write" hashed: (sliceoff(arg0) == sliceoff(buf) + len(mbuf) + 11 && len(arg0) == len(buf) - len(mbuf) - 11) || (sliceoff(arg0) == sliceoff(buf) && len(arg0) == len(mbuf))
 //@   assert at "adc := binary.BigEndian.Uint16(buf[10:])" adckept: buf[10] * 256 + buf[11] == adc0
+//@   assert after "adc := binary.BigEndian.Uint16(buf[10:])" adcis: adc == adc0 && 0 <= adc0 && adc0 < 65536
 //@   assert after "adc++" adcinc: adc == (adc0 + 1) % 65536
 //@   callsite "PutUint16" adcput: (sliceoff(arg1) == sliceoff(buf) + 10 && arg2 == (adc0 + 1) % 65536) || sliceoff(arg1) == sliceoff(buf) + len(mbuf) + 9
 //@   exit arcount: ret1 == nil ==> ret0[10] * 256 + ret0[11] == (adc0 + 1) % 65536
